@@ -301,8 +301,10 @@ def opWorld (j : Json) : Except String Json := do
   let childBad ← J.nats! j "childBad"
   let o : Ztr.Runner.Opts := { repeat_ := repeat_, stopOnError := stopOnError, buffer := buffer, processes := processes, resume := resume }
   let r := Ztr.Runner.runProcess w o (fun l => childBad.contains l)
+  let fs := Ztr.Runner.finalState w o (fun l => childBad.contains l)
   return Json.mkObj [
     ("trace", Json.arr (r.trace.map evJson).toArray),
+    ("snaps", Json.arr (fs.glog.map (fun p => jNats p.2.setup)).toArray),
     ("ran", jN r.ran), ("failures", jNats r.failures),
     ("errors", Json.arr (r.errors.map errJson).toArray),
     ("skipped", jN r.skipped), ("failed", Json.bool r.failed),
